@@ -357,9 +357,34 @@ func processViolations(s *scratch, spec *propSpec, b budget, files []string, shr
 	}
 	sort.Strings(order)
 	os.MkdirAll(filepath.Join(verifDir, "replays"), 0o755)
-	var res []confirmed
-	for _, sig := range order {
-		cands := bySig[sig]
+	res := make([]confirmed, len(order))
+	errs := make([]error, len(order))
+	var wg sync.WaitGroup
+	sem := make(chan struct{}, 6)
+	for i, sig := range order {
+		wg.Add(1)
+		sem <- struct{}{}
+		go func(i int, sig string) {
+			defer wg.Done()
+			defer func() { <-sem }()
+			budget := shrinkBudget
+			if i >= 6 {
+				budget = 0 // many distinct signatures: confirm all, minimise the first six
+			}
+			res[i], errs[i] = processOne(s, spec, b, bin, sig, bySig[sig], budget, i)
+		}(i, sig)
+	}
+	wg.Wait()
+	for _, e := range errs {
+		if e != nil {
+			return nil, e
+		}
+	}
+	return res, nil
+}
+
+func processOne(s *scratch, spec *propSpec, b budget, bin, sig string, cands []string, shrinkBudget time.Duration, idx int) (confirmed, error) {
+	{
 		// prefer the smallest plan
 		sort.SliceStable(cands, func(i, j int) bool {
 			si, _ := os.Stat(cands[i])
@@ -373,7 +398,7 @@ func processViolations(s *scratch, spec *propSpec, b budget, files []string, shr
 			if !b.race {
 				return nil
 			}
-			return []string{"GORACE=halt_on_error=0 exitcode=66 history_size=7 log_path=" + filepath.Join(s.dir, "race", tag)}
+			return []string{"GORACE=halt_on_error=0 exitcode=66 history_size=7 log_path=" + filepath.Join(s.dir, "race", fmt.Sprintf("p%d-%s", idx, tag))}
 		}
 		// 1. confirm in a fresh process (strict replay)
 		attempts, hits := 1, 0
@@ -388,22 +413,28 @@ func processViolations(s *scratch, spec *propSpec, b budget, files []string, shr
 				hits++
 			}
 			if code == 2 || code < 0 {
-				return nil, fmt.Errorf("replay of %s failed (exit %d):\n%s", f, code, out)
+				return confirmed{}, fmt.Errorf("replay of %s failed (exit %d):\n%s", f, code, out)
 			}
 		}
 		note := fmt.Sprintf("confirmed in a fresh process (%d attempt(s))", attempts)
 		if hits == 0 {
 			if !isRace {
-				return nil, fmt.Errorf("violation %s from %s did not reproduce in a fresh process - harness nondeterminism, refusing to report:\n%s", sig, f, lastOut)
+				return confirmed{}, fmt.Errorf("violation %s from %s did not reproduce in a fresh process - harness nondeterminism, refusing to report:\n%s", sig, f, lastOut)
 			}
 			note = fmt.Sprintf("race report did not recur in %d fresh-process replays (std-internal pools can mask it, DESIGN 2.3); reported from the batch run", attempts)
 		}
 		// 2. minimise
 		final := filepath.Join(verifDir, "replays", filepath.Base(f))
 		min := filepath.Join(s.dir, "min-"+filepath.Base(f))
-		out, code := runTool(bin, raceEnv("shrink"), "shrink", "-budget", shrinkBudget.String(), "-out", min, f)
 		use := f
-		if code == 0 || code == 66 {
+		out, code := "", 3
+		if shrinkBudget > 0 {
+			out, code = runTool(bin, raceEnv("shrink"), "shrink", "-budget", shrinkBudget.String(), "-out", min, f)
+		} else {
+			note += "; not minimised (more than six distinct signatures in this run)"
+		}
+		if code == 3 {
+		} else if code == 0 || code == 66 {
 			if _, err := os.Stat(min); err == nil {
 				// 3. the minimised file must replay (strict) to the same class in a fresh process
 				out2, code2 := runTool(bin, raceEnv("final"), "replay", min)
@@ -418,17 +449,16 @@ func processViolations(s *scratch, spec *propSpec, b budget, files []string, shr
 		}
 		data, err := os.ReadFile(use)
 		if err != nil {
-			return nil, err
+			return confirmed{}, err
 		}
 		if err := os.WriteFile(final, data, 0o644); err != nil {
-			return nil, err
+			return confirmed{}, err
 		}
 		frf, _ := detsim.ReadReplay(final)
 		d := ""
 		if frf != nil && frf.Violation != nil {
 			d = frf.Violation.Detail
 		}
-		res = append(res, confirmed{sig: sig, path: final, detail: d, note: note})
+		return confirmed{sig: sig, path: final, detail: d, note: note}, nil
 	}
-	return res, nil
 }
